@@ -54,6 +54,7 @@ func checkC17(c *Ctx) {
 	}
 	// R2: the quantiser truncates to Sunday 00:00:00.000 UTC
 	qOK := 0
+	quantClosedForm := false
 	for _, r := range returnsOf(quant) {
 		call, ok := r.Results[0].(*ssa.Call)
 		good := false
@@ -71,9 +72,23 @@ func checkC17(c *Ctx) {
 			// year/month/day come from the same time value: t.Year(), t.Month(), t.Day() or y, m, d := t.Date()
 			ymd := true
 			var base ssa.Value
+			closedForm := false
 			for i, m := range []string{"Year", "Month", "Day"} {
 				var recv ssa.Value
-				switch a := call.Call.Args[i].(type) {
+				arg := call.Call.Args[i]
+				// day - int(weekday) of the same instant: the closed form of "step back to Sunday"
+				// (time.Date normalises a day number before the first of the month)
+				if sub, isSub := arg.(*ssa.BinOp); isSub && i == 2 && sub.Op == token.SUB {
+					if w, ok := stripConv(sub.Y).(*ssa.Call); ok && w.Call.StaticCallee() != nil && calleeFullName(w.Call.StaticCallee()) == "(time.Time).Weekday" {
+						closedForm = true
+						quantClosedForm = true
+						arg = sub.X
+						if base != nil && trivialPhi(w.Call.Args[0]) != trivialPhi(base) {
+							ymd = false
+						}
+					}
+				}
+				switch a := arg.(type) {
 				case *ssa.Call:
 					if a.Call.StaticCallee() != nil && calleeFullName(a.Call.StaticCallee()) == "(time.Time)."+m {
 						recv = a.Call.Args[0]
@@ -113,7 +128,7 @@ func checkC17(c *Ctx) {
 				}
 				return false
 			})
-			good = z && utc && ymd && sunday
+			good = z && utc && ymd && (sunday || closedForm)
 		}
 		if good {
 			qOK++
@@ -133,7 +148,7 @@ func checkC17(c *Ctx) {
 			}
 		}
 	})
-	c.Check(stepOK, "C17-R2", "quantiser:steps-back-one-day", quant.Pos(), "searches backwards one day at a time", "the quantiser does not step back by single days")
+	c.Check(stepOK || quantClosedForm, "C17-R2", "quantiser:steps-back-one-day", quant.Pos(), "searches backwards one day at a time", "the quantiser does not step back by single days")
 
 	// R1: taint
 	t := NewTaint(P)
@@ -242,6 +257,20 @@ func ruleStartTimeHandedOn(c *Ctx, rule string, newFn *ssa.Function) {
 				}
 				a := ci.Common().Args[idx]
 				label := fmt.Sprintf("start-time-handed-on(%s→%s)", P.FnKey(g), callee.Name())
+				// outside main the hand-over is unconditional: a caller that creates the handler only
+				// "if there is none yet" keeps the week of an earlier stream and ignores the start time
+				if !(g.Name() == "main" && g.Signature.Recv() == nil) {
+					uncond := true
+					for _, r := range returnsOf(g) {
+						if !(ins.Block() == r.Block() || ins.Block().Dominates(r.Block())) {
+							uncond = false
+						}
+					}
+					if !uncond {
+						c.Fail(rule, label+":unconditional", ins.Pos(), "refuted", P.FnKey(g)+" passes its start time to "+callee.Name()+" only on some paths: on the others the start time it was given is ignored and the times follow an earlier one")
+						return
+					}
+				}
 				switch x := a.(type) {
 				case *ssa.Parameter:
 					c.OK(rule, label, ins.Pos(), "the caller's own start-time parameter, unchanged")
@@ -263,6 +292,33 @@ func ruleStartTimeHandedOn(c *Ctx, rule string, newFn *ssa.Function) {
 					return
 				}
 				if g.Name() == "main" && g.Signature.Recv() == nil {
+					// a date given on the command line is an instant in UTC: the module function that
+					// parses it does not consult the local time zone
+					okZone := true
+					if ex, isEx := a.(*ssa.Extract); isEx {
+						a = ex.Tuple
+					}
+					if pc, isCall := a.(*ssa.Call); isCall {
+						if pf := pc.Call.StaticCallee(); pf != nil && P.InModule(pf) && pf.Blocks != nil {
+							eachInstr(pf, func(i2 ssa.Instruction) {
+								for _, op := range i2.Operands(nil) {
+									if gl, isG := (*op).(*ssa.Global); isG && gl.Pkg != nil && gl.Pkg.Pkg.Path() == "time" && gl.Name() == "Local" {
+										okZone = false
+									}
+								}
+								if f2 := staticCallee(i2); f2 != nil {
+									switch calleeFullName(f2) {
+									case "(time.Time).Local", "(time.Time).In", "time.LoadLocation":
+										okZone = false
+									}
+								}
+							})
+							if !okZone {
+								c.Fail(rule, label+":utc", ins.Pos(), "refuted", pf.Name()+" interprets the start time given to the program in a local time zone: a date near the week boundary then falls into the neighbouring constellation week on machines east or west of Greenwich")
+								return
+							}
+						}
+					}
 					c.OK(rule, label, ins.Pos(), "chosen by main (command line or clock)")
 					return
 				}
